@@ -3,7 +3,7 @@ import engine
 from props import common
 
 FLAT = ["Point", "Line", "HalfLine", "Segment", "Plane"]
-INVS = ["AnalyticEqGeneric", "SaneGeneric", "Symmetric", "Typed", "ResultInBoth", "ProbesAgree", "Idempotent", "Emit"]
+INVS = ["AnalyticEqGeneric", "SaneGeneric", "Symmetric", "Typed", "ResultInBoth", "ProbesAgree", "Idempotent", "L2Refines", "DispatchOK", "Emit"]
 
 
 def run(res, pool, tier, seed):
